@@ -364,6 +364,13 @@ def _sibling_texts():
 
 
 POOL_TEXTS = POOL_TEXTS + _sibling_texts()
+# a RELATIVE import of a name that is also a loaded top-level module of the process: there is no
+# such pulse module next to the program, so the import fails - and must leave that module alone
+POOL_TEXTS = POOL_TEXTS + [
+    ("parse-rel", "from .numpy usepulses *\nregister q[2]\n"),
+    ("run", "from .numpy usepulses *\nregister q[1]\nsubcircuit { }\n"),
+    ("parse-file", "from .numpy.linalg usepulses *\nregister q[2]\n"),
+]
 
 _PRISTINE_CACHE = {}
 
